@@ -331,11 +331,21 @@ func TestRefactoringsDoNotChangeTheSkeletons(t *testing.T) {
 		}
 		return string(all)
 	}
-	main, ref := canonical(gen("fields_main")), canonical(gen("refactored"))
+	for _, dir := range []string{"refactored", "batch2"} {
+		compareSkeletons(t, dir, canonical(gen("fields_main")), canonical(gen(dir)))
+	}
+}
+
+// batch2 = main + storage-b1 (maxPartitions/partitionCapacity regrouped into an EMBEDDED private struct, private renames, the
+// "current partition has room" check extracted into openPartitionLocked, called only under the lock) + storage-b3 (Keys/Values
+// through a generic helper FUNCTION collect(s, pick), CopyToMap delegating to the function TranslateToMapOf, Clear delegating
+// to ClearAndResize) + workqueue-b1 (errChan/mutex/subscribers regrouped into a private sub-struct errorHub held by value,
+// Errors() moved to errorHub.subscribe, the monitor goroutine became the method errorHub.monitor started with go)
+func compareSkeletons(t *testing.T, dir string, main, ref map[string][]canonEntry) {
 	for _, def := range []string{"safemap_skeleton", "gstack_skeleton", "cache_skeleton", "wq_err_skeleton", "wq_shared_skeleton"} {
 		m, r := main[def], ref[def]
 		if len(m) == 0 || len(m) != len(r) {
-			t.Errorf("%s: %d entries on main, %d after the rewrites", def, len(m), len(r))
+			t.Errorf("%s/%s: %d entries on main, %d after the rewrites", dir, def, len(m), len(r))
 			continue
 		}
 		for i := range m {
@@ -548,4 +558,61 @@ func TestPubRankKeyEntriesAndMutations(t *testing.T) {
 	check(r, "Reset", `("Reset", [Sec [`+mxW+`] [`+wrt("entries")+`]])`)
 	check(r, "Calculate", `("Calculate", [Sec [`+mxR+`] [`+rd("entries")+`]])`)
 	check(pubGen(t, "pub_m6_rank_nolock", 3), "Accumulate", `("Accumulate", [Sec [] [`+rd("entries")+`]])`)
+}
+
+// a struct held by value inside the target (lock + tracked slice), with methods; an EMBEDDED struct with promoted fields
+func TestNestedStructsAndEmbedding(t *testing.T) {
+	fc, err := loadFile(filepath.Join("..", "testdata", "fields_failclosed", "box.go"))
+	if err != nil {
+		t.Fatal(err)
+	}
+	tg := ftarget{file: "box.go", typeName: "Hubbed", nested: true,
+		lockSpecs:  []lockSpec{{"L", "Mutex", 0}},
+		fieldSpecs: []fieldSpec{{canon: "S", typ: `^\[\]chan int$`}, {canon: "rows", typ: `^int$`, nth: 0}, {canon: "cols", typ: `^int$`, nth: 1}},
+		defName:    "hubbed"}
+	var buf bytes.Buffer
+	renderFields(&buf, tg, analyseFieldTarget(fc, tg))
+	text := buf.String()
+	check := func(name, want string) {
+		t.Helper()
+		if got := entryLine(t, text, name); got != want {
+			t.Errorf("%s:\n got  %s\n want %s", name, got, want)
+		}
+	}
+	check("Add", `("Add", [Sec [("L", Wr)] [`+rd("S")+`; `+wrt("S")+`]])`)
+	check("Start", `("Start", [])`)
+	check("Start.go1", `("Start.go1", [Sec [("L", Wr)] [`+rd("S")+`]])`)
+	check("Area", `("Area", [Sec [] [`+rd("rows")+`; `+rd("cols")+`]])`)
+	check("SetRows", `("SetRows", [Sec [("L", Wr)] [`+wrt("rows")+`]])`)
+	check("hub.lonely", `("hub.lonely", [Sec [] [`+rd("S")+`]])`)
+	check("hub.byValue", `("hub.byValue", [Unknown])`)
+	check("CopyHub", `("CopyHub", [Unknown])`)
+	if strings.Contains(text, `("hub.add"`) || strings.Contains(text, `("hub.pump"`) {
+		t.Errorf("reached methods of the nested struct have entries of their own:\n%s", text)
+	}
+}
+
+// deep mode: a function of the file that is handed the receiver is analysed in place
+func TestDeepFunctionInlining(t *testing.T) {
+	fc, err := loadFile(filepath.Join("..", "testdata", "infer", "shapes.go"))
+	if err != nil {
+		t.Fatal(err)
+	}
+	tg := target{file: "shapes.go", typeName: "Outer", lockCanon: "L", locCanon: "X", defName: "sk"}
+	var buf bytes.Buffer
+	render(&buf, tg, analyseTarget(fc, tg))
+	text := buf.String()
+	rdX := `{| loc := "X"; wr := false |}`
+	for name, want := range map[string]string{
+		"Sum":      `("Sum", [Sec [("L", Rd)] [` + rdX + `]])`,
+		"SumTwice": `("SumTwice", [Unknown])`,
+		"Total":    `("Total", [Sec [("L", Rd)] [` + rdX + `]])`,
+	} {
+		if got := entryLine(t, text, name); got != want {
+			t.Errorf("%s:\n got  %s\n want %s", name, got, want)
+		}
+	}
+	if strings.Contains(text, `("total"`) {
+		t.Errorf("the private function total has an entry of its own")
+	}
 }
